@@ -143,6 +143,14 @@ CHECKS = {
         "print). Directory imports are exercised in C03's arrangements only.",
    technique="TLA+ module-loading/initialisation/visibility specification + TLC trace validation of frontend verdicts and compiled-program output",
    ref="§4 C10"),
+ "C15": dict(
+   text="Every generated program exists in four variants: generic functions declared once and called at several types (G), one textually specialised function per instantiation (S), "
+        "and both with the functions in an imported module (Glib, Slib). All four, at the tier's -O levels, are validated by TLC against DDPSem's evaluation of the SPECIALISED "
+        "program, so generic = specialised = specification. Well-typedness of generic calls (one binding per type parameter, aliases transparent, definitions opaque) for all "
+        "argument-type tuples of 5 signatures, and identity of generic-Kombination instantiations for 625 pairs of type-argument tuples, are validated against Generics.tla.",
+   note="11 templates x 7 argument types; call-site scope leakage is only exercised through the library variants (no same-named types in the importing module yet).",
+   technique="TLA+ executable semantics of the specialised program + unification specification, TLC trace validation of both program variants",
+   ref="§4 C15"),
 }
 PENDING = {}
 
